@@ -110,8 +110,9 @@ Inductive fdata :=
 | Index (vals : list Z)                 (* stored "index" *)
 | FlMax (i : Z) (len : Z)               (* fl1_max, fl2_max, fl3_max *)
 | Temp (len : Z) (allzero : bool)       (* "temp"; np.allclose(temp, 0) *)
-| MlScore (len : Z) (bad : bool).       (* ml_score_xxx; bad = values
+| MlScore (len : Z) (bad : bool)        (* ml_score_xxx; bad = values
                                            outside [0, 1] *)
+| MlClass (len : Z).                    (* stored "ml_class" *)
 
 (* rank: position of the name in the sorted list of the names in /events
    (an order isomorphic encoding of the feature name) *)
@@ -125,6 +126,7 @@ Definition flen (d : fdata) : Z :=
   | FlMax _ l => l
   | Temp l _ => l
   | MlScore l _ => l
+  | MlClass l => l
   end.
 
 Record file := mkFile {
@@ -418,14 +420,21 @@ Definition check_metadata_missing (f : file) : list cue :=
   ++ missing_in f (zrange 13 17)
   ++ (if has_fl f then missing_in f (zrange 17 27) else []).
 
-(* "ml_class" is available as soon as one ml_score_xxx feature is stored;
-   computing it raises ValueError for scores outside [0, 1], for an empty
-   score feature (np.nanmax of an empty array) and for a score feature whose
-   length is not len(ds) (broadcast into the score matrix) *)
+(* A stored "ml_class" is just read.  Otherwise "ml_class" is available as
+   soon as one ml_score_xxx feature is stored; computing it raises ValueError
+   for scores outside [0, 1], for an empty score feature (np.nanmax of an
+   empty array) and for a score feature whose length can not be broadcast
+   into the len(ds) rows of the score matrix (neither len(ds) nor 1) *)
+Definition mlclass_stored (f : file) : bool :=
+  existsb (fun ft => match ft_data ft with MlClass _ => true | _ => false end)
+          (f_feats f).
 Definition check_ml_class (f : file) (n : Z) : list cue :=
-  if existsb (fun ft => match ft_data ft with
-                        | MlScore l bad => bad || (l =? 0) || negb (l =? n)
-                        | _ => false end) (f_feats f)
+  if negb (mlclass_stored f)
+     && existsb (fun ft => match ft_data ft with
+                           | MlScore l bad =>
+                               bad || (l =? 0)
+                               || (negb (l =? n) && negb (l =? 1))
+                           | _ => false end) (f_feats f)
   then [MlClassError] else [].
 
 Definition check_temperature_zero_zmd (f : file) : list cue :=
@@ -617,7 +626,7 @@ Definition oz (l : list Z) : option Z :=
 (* features: [rank; kind; a; b; c] ++ index values
    kind 0 Plain len | 1 Image which len h w (a=which, b=len, c=h, then w as
    the single extra value) | 2 Index | 3 FlMax i len | 4 Temp len zero |
-   5 MlScore len bad *)
+   5 MlScore len bad | 6 MlClass len *)
 Definition mk_feat (l : list Z) : feat :=
   match l with
   | r :: 0 :: a :: _ => mkFeat r (Plain a)
@@ -626,6 +635,7 @@ Definition mk_feat (l : list Z) : feat :=
   | r :: 3 :: a :: b :: _ => mkFeat r (FlMax a b)
   | r :: 4 :: a :: b :: _ => mkFeat r (Temp a (negb (b =? 0)))
   | r :: 5 :: a :: b :: _ => mkFeat r (MlScore a (negb (b =? 0)))
+  | r :: 6 :: a :: _ => mkFeat r (MlClass a)
   | r :: _ => mkFeat r (Plain 0)
   | [] => mkFeat 0 (Plain 0)
   end.
